@@ -36,6 +36,20 @@ pub fn raw_messages() -> Vec<AnyMessage> {
             }
         }
     }
+    // a few messages the enumerator does not contain: the handshake of the
+    // behaviour's own version (so that a peer can become Initialized inside a
+    // history), a Leios-capable accept, and peer-sharing answers that are far
+    // longer than anything the initiator asks for
+    use pallas_network2::protocol as proto;
+    let table = proto::handshake::n2n::VersionTable { values: [(13u64, crate::world::vdata())].into_iter().collect() };
+    out.push(AnyMessage::Handshake(proto::handshake::Message::Propose(table)));
+    out.push(crate::world::reply_msg(crate::world::R::Accept, 0));
+    out.push(crate::world::reply_msg(crate::world::R::AcceptLeios, 0));
+    for n in [101u16, 255] {
+        let peers = (0..n).map(|i| proto::peersharing::PeerAddress::V4(std::net::Ipv4Addr::new(172, 16, (i >> 8) as u8, i as u8), 3001)).collect();
+        out.push(AnyMessage::PeerSharing(proto::peersharing::Message::SharePeers(peers)));
+    }
+    out.push(AnyMessage::PeerSharing(proto::peersharing::Message::ShareRequest(255)));
     out
 }
 
@@ -127,7 +141,49 @@ pub fn run(ctx: Ctx) -> ! {
             }
         }
     };
-    let st_i = bfs::explore(World::new(cfg.clone()).key(), |_h: &[Ev]| events.clone(), run_i, &bfs::Config { max_depth: depth, max_states: cap, parallel: true });
+    // start from non-initial states too: the empty behaviour, one initialized
+    // peer, one initialized Leios-capable peer, two initialized peers
+    let find = |needle: &str| labels.iter().rposition(|l| l.starts_with(needle)).unwrap_or(0);
+    let (i_prop, i_acc) = (raw.len() - 6, raw.len() - 5);
+    let i_accl = raw.len() - 4;
+    let _ = find;
+    let init_peer = |p: u8, acc: usize| vec![Ev::Include(p), Ev::House, Ev::Connected(p), Ev::RawSent(p, i_prop), Ev::RawRecv(p, acc)];
+    let mut prefixes: Vec<(&str, Vec<Ev>, usize)> = vec![("empty", vec![], depth)];
+    prefixes.push(("peer 0 initialized", init_peer(0, i_acc), depth - 1));
+    prefixes.push(("peer 0 initialized (leios version)", init_peer(0, i_accl), depth - 1));
+    let mut both = init_peer(1, i_acc);
+    both.extend(init_peer(0, i_acc));
+    prefixes.push(("both peers initialized", both, depth - 1));
+    let mut st_i = bfs::Stats::default();
+    let mut per_prefix = vec![];
+    for (name, pre, d) in &prefixes {
+        let pre_ok = World::replay(&cfg, pre, raw_ref);
+        let init_key = match &pre_ok {
+            Ok(w) => w.key(),
+            Err((i, p)) => {
+                ctx.violation(p.site(), format!("initiator panicked in step {i} of the prefix {pre:?}: {} at {}", p.message, p.location), json!({"behaviour": "initiator", "prefix": format!("{pre:?}")}));
+                continue;
+            }
+        };
+        let st = bfs::explore(
+            init_key,
+            |_h: &[Ev]| events.clone(),
+            |h: &[Ev]| {
+                let mut full = pre.clone();
+                full.extend(h.iter().cloned());
+                run_i(&full)
+            },
+            &bfs::Config { max_depth: *d, max_states: cap, parallel: true },
+        );
+        per_prefix.push(json!({"prefix": name, "states": st.states, "transitions": st.transitions, "max_depth": st.max_depth, "capped": st.capped, "new_states_per_depth": st.per_depth_new_states}));
+        st_i.states += st.states;
+        st_i.transitions += st.transitions;
+        st_i.max_depth = st_i.max_depth.max(st.max_depth);
+        st_i.capped |= st.capped;
+        if st_i.samples.len() < 3 {
+            st_i.samples.extend(st.samples.into_iter().take(1));
+        }
+    }
     // ---------------- responder: complete tree (its connection bookkeeping is private, so no merging)
     let mut revs: Vec<REv> = vec![REv::Idle];
     for p in 0..2u8 {
@@ -182,7 +238,7 @@ pub fn run(ctx: Ctx) -> ! {
         "transitions" => st_i.transitions as u64 + rcount * (rdepth as u64),
         "traces_validated_against_impl" => st_i.transitions as u64 + rcount,
         "samples" => samples,
-        "initiator" => json!({"states": st_i.states, "transitions": st_i.transitions, "max_depth": st_i.max_depth, "capped": st_i.capped, "fixpoint": st_i.fixpoint, "new_states_per_depth": st_i.per_depth_new_states, "events_in_alphabet": events.len()}),
+        "initiator" => json!({"states": st_i.states, "transitions": st_i.transitions, "max_depth": st_i.max_depth, "capped": st_i.capped, "fixpoint": st_i.fixpoint, "per_prefix": per_prefix, "events_in_alphabet": events.len()}),
         "responder" => json!({"histories": rcount, "tree_depth": rdepth, "prefixes": prefixes.len(), "events_in_alphabet": revs.len(), "outputs_drained": outs_seen.into_inner()}),
         "raw_messages" => labels,
         "distinct_outcomes" => st_i.states,
